@@ -206,3 +206,37 @@ Example C01_wire_example :
   (exists a, last (run_world raw_example).2 = Some (WoEntries [(3%N, false, a)]) /\
              last (run_sworld raw_example).2 = Some (SoEntries [((0%N, pA), false, a)])).
 Proof. exact raw_example_ok. Qed.
+
+(* ------------------------------------------------------------------ *)
+(* The third ingest path, MRT update files (Mrt/MrtModel.v process_file / process_message, Mrt/MrtRaw.v: the octets
+   of the BGP message inside a BGP4MP record read by C04's decoder). "An UPDATE that fails to parse changes nothing
+   at all": there is no half-applied UPDATE - either no update leaves the unit and its register is untouched, or ONE
+   Bulk holds every route event of the UPDATE - and around the record of an UPDATE that does not decode the import is
+   that of the file without it: same update stream, same RIB, same ideal RIB, for any queue of files. *)
+From RV Require Ingress.IngressProofs Mrt.MrtModel Mrt.MrtRaw Mrt.MrtRawProofs.
+
+Theorem C01_mrt_update_all_or_nothing : forall parent r p bytes,
+  IngressProofs.Below r -> IngressProofs.PeerUnique r ->
+  match BgpModel.decode BgpModel.Code bytes with
+  | None => MrtModel.msg_step parent r (MrtRaw.raw_rec p bytes) = (r, [])
+  | Some u =>
+      exists id r', MrtModel.msg_step parent r (MrtRaw.raw_rec p bytes) = (r', [UBulk (MrtRaw.bulk_of_events id (BgpModel.events u))]) /\
+        MrtRaw.bulk_of_events id (BgpModel.events u) ≡ₚ map (pay_of_ev id) (BgpModel.events u) /\
+        IngressProofs.answers r' (MrtModel.mrt_query parent p) id /\
+        (forall x, x ∈ MrtRaw.bulk_of_events id (BgpModel.events u) -> k_mui (p_key x) = id)
+  end.
+Proof. exact MrtRawProofs.raw_all_or_nothing. Qed.
+Print Assumptions C01_mrt_update_all_or_nothing.
+
+Theorem C01_mrt_unparsable_changes_nothing : forall bytes fs1 name rc recs1 p recs2 fs2,
+  BgpModel.decode BgpModel.Code bytes = None ->
+  MrtModel.update_file (MrtModel.FGood name (rc :: recs1 ++ recs2)) = true ->
+  MrtModel.queue_run MrtModel.unit_start.1 MrtModel.unit_start.2
+      (fs1 ++ MrtModel.FGood name (rc :: recs1 ++ MrtRaw.raw_rec p bytes :: recs2) :: fs2) =
+    MrtModel.queue_run MrtModel.unit_start.1 MrtModel.unit_start.2 (fs1 ++ MrtModel.FGood name (rc :: recs1 ++ recs2) :: fs2) /\
+  MrtModel.import (fs1 ++ MrtModel.FGood name (rc :: recs1 ++ MrtRaw.raw_rec p bytes :: recs2) :: fs2) =
+    MrtModel.import (fs1 ++ MrtModel.FGood name (rc :: recs1 ++ recs2) :: fs2) /\
+  MrtModel.i_import (fs1 ++ MrtModel.FGood name (rc :: recs1 ++ MrtRaw.raw_rec p bytes :: recs2) :: fs2) =
+    MrtModel.i_import (fs1 ++ MrtModel.FGood name (rc :: recs1 ++ recs2) :: fs2).
+Proof. exact MrtRawProofs.raw_undecodable_changes_nothing. Qed.
+Print Assumptions C01_mrt_unparsable_changes_nothing.
